@@ -9,17 +9,17 @@ CONSTANTS
   MaxBuf = 18
   MaxSend0 = 2
   NCall = 14
-  NApp = 12
-  NPeer = 10
-  MaxData = 2
+  NApp = 18
+  NPeer = 24
+  MaxData = 1
   CallKinds = {"poll_capacity"}
   AppKinds = {"request", "reserve", "send_data", "send_reset", "drop_send"}
   PeerKinds = {"WU", "SET_IWS", "RST"}
-  IwsVals = {0, 1, 2}
+  IwsVals = {0, 2}
   MaxcVals = {0, 1, 2}
   ReqEos = {FALSE}
-  Allow = {"shared_slot", "reset_after_end", "push_after_recv_drop"}
-  ExportLen = 40
+  Allow = {"shared_slot", "reset_after_end", "push_after_recv_drop", "cancel_pending_open"}
+  ExportLen = 36
 ACTION_CONSTRAINT Drained
 ACTION_CONSTRAINT LateEnd
 ACTION_CONSTRAINT Bias
